@@ -41,7 +41,8 @@ class Relation:
 
     def is_cardinal(self) -> bool:
         return (
-            self.is_group()
+            not self.is_mandatory()
+            and not self.is_optional()
             and not self.is_alternative()
             and not self.is_or()
             and not self.is_mutex()
